@@ -816,6 +816,12 @@ impl Context {
 
         // Flatten enum values into an array
         let mut enum_values = Vec::new();
+        #[cfg(rssl_verif)]
+        rssl_text::verif::probe(
+            "typer::scopes::enum_values",
+            enum_symbols.len(),
+            rssl_text::verif::order_sig(enum_symbols.keys()),
+        );
         for (name, symbols) in enum_symbols {
             assert_eq!(symbols.len(), 1);
             match symbols[0] {
